@@ -52,6 +52,10 @@ pub fn check_cleanup(text: &str) -> Result<Vec<CV>, String> {
     let after = module_snapshot(&f)?;
     let text1 = f.write_to_string();
     let mut out = Vec::new();
+    // the name indexes of the lists cleanup has edited still answer for the remaining elements
+    if let Err(w) = crate::c08::index_coherent(&f) {
+        out.push(CV { oracle: "name-index-incoherent-after-cleanup", detail: w.split(':').next().unwrap_or("").to_string(), what: w });
+    }
     // (1) removed elements are helpers; objects and typedefs unaltered modulo previously dangling references
     for e in before.elems.iter().filter(|e| e.ns.is_some()) {
         let ns = e.ns.unwrap();
